@@ -7,6 +7,7 @@ import (
 	"fmt"
 	"os"
 	"path/filepath"
+	"sort"
 	"strings"
 	"time"
 
@@ -237,24 +238,64 @@ func metaFilename(filename string) string {
 
 func (fs *filestore) Walk(ctx context.Context, bucket string, cb func(ctx context.Context, filename string, fInfo os.FileInfo) error) error {
 	root := filepath.Join(fs.gcsDir, bucket)
-	return filepath.Walk(root, func(path string, fInfo os.FileInfo, err error) error {
-		if strings.HasSuffix(path, metaExtention) {
-			// Ignore metadata files
-			return nil
-		}
-
-		filename := strings.TrimPrefix(path, root)
-		filename = strings.TrimPrefix(filename, string(os.PathSeparator))
-		if err != nil {
-			if os.IsNotExist(err) {
-				return err
-			}
-			return fmt.Errorf("walk error at %s: %w", filename, err)
-		}
-
-		if err := cb(ctx, filename, fInfo); err != nil {
+	info, err := os.Lstat(root)
+	if err != nil {
+		if os.IsNotExist(err) {
 			return err
 		}
+		return fmt.Errorf("walk error at %s: %w", bucket, err)
+	}
+	return fs.walk(ctx, root, root, info, cb)
+}
+
+// walk visits path and everything below it in ascending bytewise order of the object names, which is the order GCS
+// lists in. filepath.Walk cannot be used for this: it orders each directory by entry name, so for the objects "a/b"
+// and "a.txt" it visits directory "a" (and "a/b") before "a.txt", although "a.txt" < "a/b". Ordering the entries of a
+// directory as if directory names ended in the separator gives the right global order, because every object below a
+// directory "a" is named "a/...".
+func (fs *filestore) walk(ctx context.Context, root string, path string, info os.FileInfo, cb func(ctx context.Context, filename string, fInfo os.FileInfo) error) error {
+	if strings.HasSuffix(path, metaExtention) {
+		// Ignore metadata files
 		return nil
-	})
+	}
+
+	filename := strings.TrimPrefix(path, root)
+	filename = strings.TrimPrefix(filename, string(os.PathSeparator))
+	if err := cb(ctx, filename, info); err != nil {
+		if info.IsDir() && err == filepath.SkipDir {
+			return nil
+		}
+		return err
+	}
+	if !info.IsDir() {
+		return nil
+	}
+
+	entries, err := os.ReadDir(path)
+	if err != nil {
+		if os.IsNotExist(err) {
+			return nil // removed while walking
+		}
+		return fmt.Errorf("walk error at %s: %w", filename, err)
+	}
+	sortKey := func(e os.DirEntry) string {
+		if e.IsDir() {
+			return e.Name() + string(os.PathSeparator)
+		}
+		return e.Name()
+	}
+	sort.Slice(entries, func(i, j int) bool { return sortKey(entries[i]) < sortKey(entries[j]) })
+	for _, e := range entries {
+		fInfo, err := e.Info()
+		if err != nil {
+			if os.IsNotExist(err) {
+				continue // removed while walking
+			}
+			return fmt.Errorf("walk error at %s: %w", filepath.Join(filename, e.Name()), err)
+		}
+		if err := fs.walk(ctx, root, filepath.Join(path, e.Name()), fInfo, cb); err != nil {
+			return err
+		}
+	}
+	return nil
 }
